@@ -659,10 +659,13 @@ def factor_add_terms_ex(
 
     # If there are variables, we want to extract them, so
     # the smallest number to factor out. TODO: is this okay?
+    # NOTE: the builtins keep python numbers; np.min/np.max would return numpy
+    #       scalars whose integer arithmetic wraps at 64 bits once they are
+    #       stored in the tree.
     if has_left or has_right:
-        best = np.min(common)
+        best = min(common)
     else:
-        best = np.max(common)
+        best = max(common)
     result = FactorResult()
     result.best = best
     result.left = l_factors[best]
